@@ -823,10 +823,7 @@ func rbFaults() []rbFault {
 			return true
 		}},
 		{name: "segment-of-other-container", must: "err", apply: func(r *rand.Rand, sc *rbScn) bool {
-			// MPEG-TS bytes decode as "no fragment at all" for go-mp4: on an fMP4 stream that is an all-empty segment (skipped, F15)
-			if sc.streams[0].container == "fmp4" {
-				sc.nextMust = "any"
-			}
+			// MPEG-TS bytes decode as "no fragment at all" for go-mp4: an error, like an empty body
 			return true
 		}, post: func(r *rand.Rand, sc *rbScn) bool {
 			st := rbPick(r, sc.streams)
@@ -847,7 +844,8 @@ func rbFaults() []rbFault {
 			return true
 		}},
 		{name: "empty-segment", must: "err", apply: func(r *rand.Rand, sc *rbScn) bool {
-			// a zero-byte file. fMP4: a segment without any sample, skipped (repair of F15); MPEG-TS: error
+			// a zero-byte file (what a 200 answer without body looks like): no fragment at all — the fatal error "could not find
+			// data of leading track" on every stream and container (only a body WITH a `moof` but without samples is skipped, F15)
 			s := r.Intn(len(sc.streams))
 			st := sc.streams[s]
 			dl := st.downloaded()
@@ -857,9 +855,6 @@ func rbFaults() []rbFault {
 			f := rbPick(r, dl)
 			if st.container == "fmp4" {
 				st.parts[f] = nil
-				if s > 0 || len(dl) > 1 {
-					sc.nextMust = "ok" // skipped; a leading stream of which nothing else is downloaded ends with an error
-				}
 			} else {
 				st.writes[f] = nil
 			}
